@@ -52,6 +52,7 @@ type c04Cfg struct {
 	skipDefault   bool
 	create        bool // writes through Create (implicit transaction callbacks) instead of Exec
 	derive        int  // handle derivation applied inside blocks before each write (c04Derive)
+	sameHandle    bool // a nested block starts its own children on the handle it was started on itself (a stored handle), not on the handle passed to its callback
 }
 
 // c04Derive: how the block derives the handle it writes through.
@@ -88,6 +89,7 @@ func c04Shapes(tier int) []c04Cfg {
 			}
 		}
 		r = append(r, c04Cfg{tree: 3}, c04Cfg{tree: 3, prepare: true, create: true})
+		r = append(r, c04Cfg{tree: 3, sameHandle: true}, c04Cfg{tree: 3, prepare: true, sameHandle: true})
 		return r
 	}
 	for t := 0; t < ntrees; t++ {
@@ -98,6 +100,9 @@ func c04Shapes(tier int) []c04Cfg {
 				}
 			}
 		}
+	}
+	for t := 3; t < ntrees; t++ {
+		r = append(r, c04Cfg{tree: t, sameHandle: true}, c04Cfg{tree: t, prepare: true, sameHandle: true}, c04Cfg{tree: t, create: true, sameHandle: true})
 	}
 	return r
 }
@@ -180,7 +185,11 @@ func H_C04_Tree(shape int) {
 								}
 							}()
 						}
-						cerr = run(st.child, tx2, false)
+						childTx := tx2
+						if cfg.sameHandle && !top {
+							childTx = tx // the handle this block was started on: still inside the same transaction
+						}
+						cerr = run(st.child, childTx, false)
 					}()
 					if cerr != nil && !recovered && verifrt.Bool(n.name+"_propagates") {
 						return cerr
